@@ -385,6 +385,9 @@ type Module struct {
 type UseListOrder struct {
 	V       *Value
 	Indices []uint64
+	// uselistorder_bb @Fn, %BB, { ... } (module level only): V is nil
+	Fn *Fun
+	BB *Block
 }
 
 // ---------------------------------------------------------------------------
@@ -626,6 +629,10 @@ func (p *Printer) Module(m *Module) string {
 		}
 	}
 	for _, u := range m.UseListOrders {
+		if u.BB != nil {
+			p.w("uselistorder_bb %s, %%%s, { %s }\n", p.gref(u.Fn), QuoteName(u.BB.Name), idxList(u.Indices))
+			continue
+		}
 		p.w("uselistorder %s, { %s }\n", p.tv(u.V), idxList(u.Indices))
 	}
 	return p.sb.String()
